@@ -57,6 +57,7 @@ var impWants = []impWant{
 	{dir: "formats/fastq", pkg: "fastqrd", funcs: []string{"reader.read", "reader.iter"}, errZ: true, join: true},
 	{dir: "formats/bed", pkg: "bed", funcs: []string{"BED.Write", "parseLine", "reader.read"}, join: true, errZ: true},
 	{dir: "formats/newick", pkg: "newick", funcs: []string{"quoted", "nameFromText", "nameToText", "Node.traverse", "Node.newick"}, floatAs: "F"},
+	{dir: "formats/newick", pkg: "newickrd", funcs: []string{"reader.nextToken"}, errZ: true, floatAs: "F"},
 }
 
 type impFn struct {
@@ -104,6 +105,7 @@ type impTr struct {
 	self     types.Object
 	selfFn   *impFn
 	bufName  string
+	tupleTys map[string]string
 	recv     string // the reader object's record (fields other than the bufio one), returned with rd__
 	results  *types.Tuple
 	loopVars []map[types.Object]bool
@@ -260,7 +262,7 @@ func (t *impTr) zero(ty types.Type) string {
 		case u.Info()&types.IsBoolean != 0:
 			return "false"
 		case u.Info()&types.IsString != 0:
-			return "[]"
+			return "(@nil N)"
 		}
 	case *types.Slice, *types.Map:
 		return "[]"
@@ -393,6 +395,9 @@ func (t *impTr) lit(v constant.Value, ty types.Type, n ast.Node) string {
 			return fmt.Sprintf("(%s)%%Z", iv.ExactString())
 		case b.Info()&types.IsString != 0:
 			s := constant.StringVal(v)
+			if len(s) == 0 {
+				return "(@nil N)"
+			}
 			parts := make([]string, len(s))
 			for i := 0; i < len(s); i++ {
 				parts[i] = fmt.Sprintf("%d%%N", s[i])
@@ -1072,7 +1077,7 @@ func (t *impTr) assigned(n ast.Node) ([]types.Object, int) {
 					add(s.Args[0])
 				}
 				if f, ok := o.(*types.Func); ok {
-					if sig := f.Type().(*types.Signature); sig.Recv() != nil && isBuilder(sig.Recv().Type()) && strings.HasPrefix(f.Name(), "Write") {
+					if sig := f.Type().(*types.Signature); sig.Recv() != nil && isBuilder(sig.Recv().Type()) && (strings.HasPrefix(f.Name(), "Write") || f.Name() == "Reset") {
 						if sel, ok := s.Fun.(*ast.SelectorExpr); ok {
 							add(sel.X)
 						}
@@ -1098,16 +1103,20 @@ func isBufioMethod(o types.Object) bool {
 }
 
 func (t *impTr) tuple(objs []types.Object, yields int) string {
-	var names []string
+	var names, tys []string
 	for _, o := range objs {
 		names = append(names, t.nameOf(o))
+		tys = append(tys, t.ty(o.Type()))
 	}
 	if yields&1 != 0 {
 		names = append(names, "out__")
+		tys = append(tys, "_")
 	}
 	if yields&2 != 0 {
 		names = append(names, "rd__")
+		tys = append(tys, t.streamTy)
 	}
+	t.tupleTys[strings.Join(names, ", ")] = strings.Join(tys, " * ")
 	switch len(names) {
 	case 0:
 		return "tt"
@@ -1119,6 +1128,20 @@ func (t *impTr) tuple(objs []types.Object, yields int) string {
 
 func pat(tuple string) string {
 	if tuple == "tt" || strings.HasPrefix(tuple, "(") {
+		return "'" + tuple
+	}
+	return tuple
+}
+
+// patT is pat with a type annotation (the tuple was built by t.tuple).
+func (t *impTr) patT(tuple string) string {
+	if tuple == "tt" {
+		return "'tt"
+	}
+	if strings.HasPrefix(tuple, "(") {
+		if ty, ok := t.tupleTys[tuple[1:len(tuple)-1]]; ok {
+			return "'(" + tuple + " : (" + ty + "))"
+		}
 		return "'" + tuple
 	}
 	return tuple
@@ -1291,6 +1314,9 @@ func (t *impTr) block(list []ast.Stmt, k string, lc *loopCtx) string {
 				switch f.Name() {
 				case "Grow":
 					t.ex(call.Args[0], &pre)
+					return wrapOpeners(pre, rest())
+				case "Reset":
+					t.store(sel.X, "[]", &pre)
 					return wrapOpeners(pre, rest())
 				case "WriteByte":
 					b := t.ex(sel.X, &pre)
@@ -1785,14 +1811,14 @@ func (t *impTr) forStmt(s *ast.ForStmt, rest func() string) string {
 	if s.Cond != nil {
 		var pc []opener
 		c := t.ex(s.Cond, &pc)
-		cond = fmt.Sprintf("(fun %s => %s)", pat(state), wrapOpeners(pc, "Ret "+c))
+		cond = fmt.Sprintf("(fun %s => %s)", t.patT(state), wrapOpeners(pc, "Ret "+c))
 	}
 	end := "Next " + state
 	if s.Post != nil {
 		end = t.block([]ast.Stmt{s.Post}, "Next "+state, nil)
 	}
 	body := t.block(s.Body.List, end, &loopCtx{state: state, post: s.Post, label: label})
-	loop := fmt.Sprintf("after (go_while fuel %s (fun %s => %s) %s) (fun %s => %s)", cond, pat(state), body, state, pat(state), rest())
+	loop := fmt.Sprintf("after (go_while fuel %s (fun %s => %s) %s) (fun %s => %s)", cond, t.patT(state), body, state, pat(state), rest())
 	if s.Init != nil {
 		return t.block([]ast.Stmt{s.Init}, loop, nil)
 	}
@@ -1844,6 +1870,7 @@ func (t *impTr) assignsObj(n ast.Node, o types.Object) bool {
 
 func (t *impTr) function(fd *ast.FuncDecl, coqName string) *impFn {
 	t.names = map[types.Object]string{}
+	t.tupleTys = map[string]string{}
 	t.used = map[string]int{}
 	t.tmp = 0
 	t.fuel = false
